@@ -20,8 +20,8 @@ func (st *State) runnable(th *Thread) bool {
 		if th.wake != nil {
 			return true
 		}
-		if th.canRun != nil {
-			return th.canRun()
+		if th.wkind != waitNone {
+			return st.waitSatisfied(th)
 		}
 	}
 	return false
@@ -80,7 +80,7 @@ func (st *State) pickNext(kind string) {
 	st.cur.sleeping = false
 	if st.cur.status == thBlocked {
 		st.cur.status = thReady
-		st.cur.canRun = nil
+		st.cur.wkind = waitNone
 	}
 }
 
@@ -99,14 +99,57 @@ func (st *State) blockedSummary() string {
 }
 
 // block marks the current thread blocked; the pending instruction is re-executed when it runs again.
-func (st *State) block(th *Thread, canRun func() bool) {
+// wait conditions of blocked goroutines are data (not closures) so that states can be cloned
+type waitKind int
+
+const (
+	waitNone   waitKind = iota // woken explicitly (channel partner, wake info)
+	waitMutex                  // until the 4 bytes at addr are zero
+	waitWG                     // until the 8 bytes at addr are zero
+	waitQuiet                  // until no other goroutine is runnable
+)
+
+func (st *State) block(th *Thread, k waitKind, addr uint64) {
 	th.status = thBlocked
-	th.canRun = canRun
+	th.wkind = k
+	th.waddr = addr
+}
+
+func (st *State) waitSatisfied(th *Thread) bool {
+	switch th.wkind {
+	case waitMutex:
+		x := st.loadBits(th.waddr, 4)
+		return x.IsConst() && x.C == 0
+	case waitWG:
+		x := st.loadBits(th.waddr, 8)
+		return x.IsConst() && x.C == 0
+	case waitQuiet:
+		for _, t := range st.threads {
+			if t != th && st.runnable(t) {
+				return false
+			}
+		}
+		return true
+	}
+	return false
 }
 
 func (st *State) runLoop() {
 	main := st.threads[0]
 	for {
+		st.stepStart = len(st.trace)
+		st.runIter(main)
+		st.restart = false
+		if main.status == thDone {
+			return
+		}
+	}
+}
+
+// runIter is one scheduler iteration: everything in it is re-executable from its beginning, which is what a
+// state forked at a decision inside it does.
+func (st *State) runIter(main *Thread) {
+	for once := true; once; once = false {
 		th := st.cur
 		if main.status == thDone {
 			return
@@ -226,7 +269,6 @@ func (st *State) maybePreempt(th *Thread) bool {
 	}
 	k := st.choose(1 + len(others))
 	if k == 0 {
-		th.noPreempt = true
 		return false
 	}
 	st.preemptLeft--
@@ -239,7 +281,7 @@ func (st *State) maybePreempt(th *Thread) bool {
 	to.sleeping = false
 	if to.status == thBlocked {
 		to.status = thReady
-		to.canRun = nil
+		to.wkind = waitNone
 	}
 	return true
 }
@@ -383,7 +425,7 @@ func (p *Program) noteWrittenCell(k string) {
 
 // ---- channels
 
-func (st *State) findWaiter(ch *ChanObj, dir types.ChanDir, except *Thread) (*Thread, int) {
+func (st *State) findWaiter(ch ChanRef, dir types.ChanDir, except *Thread) (*Thread, int) {
 	for _, t := range st.threads {
 		if t == except || t.status != thBlocked || t.wake != nil {
 			continue
@@ -398,19 +440,20 @@ func (st *State) findWaiter(ch *ChanObj, dir types.ChanDir, except *Thread) (*Th
 }
 
 // trySend attempts a send without blocking.
-func (st *State) trySend(th *Thread, ch *ChanObj, v Value) bool {
-	if ch == nil {
+func (st *State) trySend(th *Thread, cr ChanRef, v Value) bool {
+	if cr == 0 {
 		return false
 	}
-	if ch.closed {
+	if st.chanR(cr).closed {
 		st.fail("send on closed channel")
 	}
-	if r, i := st.findWaiter(ch, types.RecvOnly, th); r != nil {
+	if r, i := st.findWaiter(cr, types.RecvOnly, th); r != nil {
 		r.wake = &wakeInfo{idx: r.waits[i].idx, val: v, ok: true}
 		r.waits = nil
 		return true
 	}
-	if len(ch.buf) < ch.cap {
+	if ch := st.chanR(cr); len(ch.buf) < ch.cap {
+		ch = st.chanW(cr)
 		ch.buf = append(ch.buf, v)
 		return true
 	}
@@ -418,47 +461,49 @@ func (st *State) trySend(th *Thread, ch *ChanObj, v Value) bool {
 }
 
 // tryRecv attempts a receive without blocking.
-func (st *State) tryRecv(th *Thread, ch *ChanObj) (Value, bool, bool) {
-	if ch == nil {
+func (st *State) tryRecv(th *Thread, cr ChanRef) (Value, bool, bool) {
+	if cr == 0 {
 		return nil, false, false
 	}
-	if len(ch.buf) > 0 {
+	if len(st.chanR(cr).buf) > 0 {
+		ch := st.chanW(cr)
 		v := ch.buf[0]
-		ch.buf = ch.buf[1:]
+		ch.buf = append([]Value(nil), ch.buf[1:]...)
 		// a blocked sender can now move its value into the buffer
-		if s, i := st.findWaiter(ch, types.SendOnly, th); s != nil {
+		if s, i := st.findWaiter(cr, types.SendOnly, th); s != nil {
 			ch.buf = append(ch.buf, s.waits[i].val)
 			s.wake = &wakeInfo{idx: s.waits[i].idx, ok: true}
 			s.waits = nil
 		}
 		return v, true, true
 	}
-	if s, i := st.findWaiter(ch, types.SendOnly, th); s != nil {
+	if s, i := st.findWaiter(cr, types.SendOnly, th); s != nil {
 		v := s.waits[i].val
 		s.wake = &wakeInfo{idx: s.waits[i].idx, ok: true}
 		s.waits = nil
 		return v, true, true
 	}
-	if ch.closed {
+	if ch := st.chanR(cr); ch.closed {
 		return st.zero(ch.ET), false, true
 	}
 	return nil, false, false
 }
 
-func (st *State) closeChan(ch *ChanObj) {
-	if ch == nil {
+func (st *State) closeChan(cr ChanRef) {
+	if cr == 0 {
 		st.fail("close of nil channel")
 	}
-	if ch.closed {
+	if st.chanR(cr).closed {
 		st.fail("close of closed channel")
 	}
+	ch := st.chanW(cr)
 	ch.closed = true
 	for _, t := range st.threads {
 		if t.status != thBlocked || t.wake != nil {
 			continue
 		}
 		for _, w := range t.waits {
-			if w.ch == ch {
+			if w.ch == cr {
 				if w.dir == types.SendOnly {
 					st.fail("send on closed channel")
 				}
@@ -475,14 +520,14 @@ func (st *State) send(th *Thread, fr *Frame, x *ssa.Send) bool {
 		th.wake = nil
 		return true
 	}
-	ch := st.eval(fr, x.Chan).(*ChanObj)
+	ch := st.eval(fr, x.Chan).(ChanRef)
 	v := st.eval(fr, x.X)
 	st.shareValue(v)
 	if st.trySend(th, ch, v) {
 		return true
 	}
 	th.waits = []waitCase{{ch: ch, dir: types.SendOnly, val: v}}
-	st.block(th, nil)
+	st.block(th, waitNone, 0)
 	return false
 }
 
@@ -500,13 +545,13 @@ func (st *State) recv(th *Thread, fr *Frame, x *ssa.UnOp) bool {
 		set(w.val, w.ok)
 		return true
 	}
-	ch := st.eval(fr, x.X).(*ChanObj)
+	ch := st.eval(fr, x.X).(ChanRef)
 	if v, ok, done := st.tryRecv(th, ch); done {
 		set(v, ok)
 		return true
 	}
 	th.waits = []waitCase{{ch: ch, dir: types.RecvOnly}}
-	st.block(th, nil)
+	st.block(th, waitNone, 0)
 	return false
 }
 
@@ -531,32 +576,28 @@ func (st *State) doSelect(th *Thread, fr *Frame, x *ssa.Select) bool {
 		mk(w.idx, w.val, w.ok)
 		return true
 	}
-	// collect ready cases
-	type ready struct {
-		idx int
-	}
 	var rs []int
-	chans := make([]*ChanObj, len(x.States))
+	chans := make([]ChanRef, len(x.States))
 	vals := make([]Value, len(x.States))
 	for i, s := range x.States {
-		chans[i] = st.eval(fr, s.Chan).(*ChanObj)
+		chans[i] = st.eval(fr, s.Chan).(ChanRef)
 		if s.Dir == types.SendOnly {
 			vals[i] = st.eval(fr, s.Send)
 		}
-		ch := chans[i]
-		if ch == nil {
+		if chans[i] == 0 {
 			continue
 		}
+		ch := st.chanR(chans[i])
 		if s.Dir == types.SendOnly {
 			if ch.closed {
 				rs = append(rs, i)
-			} else if r, _ := st.findWaiter(ch, types.RecvOnly, th); r != nil || len(ch.buf) < ch.cap {
+			} else if r, _ := st.findWaiter(chans[i], types.RecvOnly, th); r != nil || len(ch.buf) < ch.cap {
 				rs = append(rs, i)
 			}
 		} else {
 			if len(ch.buf) > 0 || ch.closed {
 				rs = append(rs, i)
-			} else if s2, _ := st.findWaiter(ch, types.SendOnly, th); s2 != nil {
+			} else if s2, _ := st.findWaiter(chans[i], types.SendOnly, th); s2 != nil {
 				rs = append(rs, i)
 			}
 		}
@@ -588,10 +629,10 @@ func (st *State) doSelect(th *Thread, fr *Frame, x *ssa.Select) bool {
 	}
 	th.waits = nil
 	for i, s := range x.States {
-		if chans[i] != nil {
+		if chans[i] != 0 {
 			th.waits = append(th.waits, waitCase{ch: chans[i], dir: s.Dir, val: vals[i], idx: i})
 		}
 	}
-	st.block(th, nil)
+	st.block(th, waitNone, 0)
 	return false
 }
